@@ -47,6 +47,44 @@ FIXTURES = [
 SEARCHES = (("lower_bound_internal", "fwd"), ("lower_bound_rev_internal", "rev"))
 
 
+def _opt_state(st, opt):
+    """what the path facts say about an Option value: 'some' / 'none' / None.  Read from discriminant tests and from
+    is_some / is_none calls (by name: `is_none() == false` is a hit, `is_some() == false` is not)"""
+    verdict = None
+    for f in st.facts:
+        t = f[1]
+        if f[0] not in ("eq", "ne") or not isinstance(t, tuple) or not t:
+            continue
+        v = None
+        if t[0] == "discr" and t[1] == opt and f[2] in (0, 1):
+            v = "some" if (f[2] == 1) == (f[0] == "eq") else "none"
+        elif t[0] == "bin" and t[1] in ("Eq", "Ne") and f[2] in (0, 1) and {t[2][0], t[3][0]} == {"discr", "int"}:
+            # is_some() / is_none() as the interpreter's axioms state them: discr(x) == 1, discr(x) == 0
+            d, k = (t[2], t[3]) if t[2][0] == "discr" else (t[3], t[2])
+            if d[1] != opt or k[1] not in (0, 1):
+                continue
+            truth = (f[0] == "eq") == bool(f[2])
+            if t[1] == "Ne":
+                truth = not truth
+            v = "some" if truth == (k[1] == 1) else "none"
+        elif t[0] == "call" and str(t[1]).rsplit("::", 1)[-1] in ("is_some", "is_none") and "Option" in str(t[1]) and f[2] in (0, 1):
+            args = [x for x in t[2] if not (isinstance(x, tuple) and x and x[0] == "mem")]
+            a = args[0] if args else None
+            while isinstance(a, tuple) and len(a) == 2 and a[0] == "ref":
+                a = a[1]
+            if isinstance(a, tuple) and a and a[0] == "constval":
+                a = a[1]
+            if a != opt:
+                continue
+            truth = (f[0] == "eq") == bool(f[2])
+            v = "some" if truth == str(t[1]).endswith("is_some") else "none"
+        if v is not None:
+            if verdict is not None and verdict != v:
+                return None
+            verdict = v
+    return verdict
+
+
 def _merge_operands(t):
     """t = merge(&a, &b, mem) -> (a_desc, b_desc) where desc is ('val', term) or ('place', place)"""
     if not (isinstance(t, tuple) and t and t[0] == "call" and str(t[1]).endswith("SegtreeItem::merge")):
@@ -86,7 +124,7 @@ def check(col, prog, tier, profile, fixture=None):
     c01.rule_push_before_descend(col, R, "R1", names, sfx)
     c01.rule_geometry(col, R, "R3", names, sfx)
     # the searches descend through push_at: a pending modification must reach the children in order (seeded change C02-j)
-    c01.rule_helpers_geometry(col, R, "R3", sfx, only={"push_at"})
+    c01.rule_helpers_geometry(col, R, "R3", sfx, only={"push_at", "merge_at", "rebuild_empty"})   # the node aggregates the searches read are merge(left child, right child)
     c01.rule_routing(col, R, "R4", sfx, only=set(names))
 
     for nm, direction in SEARCHES:
@@ -169,7 +207,7 @@ def check(col, prog, tier, profile, fixture=None):
                     col.ok("B2" + sfx, b.loc(second.bb), key, "carry = first child's returned carry")
                 else:
                     col.violation("B2" + sfx, key, b.loc(second.bb), "the second child is searched with carry %s instead of the carry returned by the first child: the first child's elements are missing from the aggregate shown to the predicate" % tstr(second.args[cpos]))
-                none_first = any(((f[0] == "eq" and f[2] == 0) or (f[0] == "ne" and f[2] == 1 and isinstance(f[1], tuple) and f[1][0] == "discr")) and ("proj", 1, first.res) in list(subterms(f[1])) for f in st.facts)
+                none_first = _opt_state(st, ("proj", 1, first.res)) == "none"
                 key = "%s|second-result-returned" % fk(b)
                 if ret == second.res and none_first:
                     col.ok("B2" + sfx, b.loc(second.bb), key, "first child had no hit; second child's result returned unchanged")
@@ -179,7 +217,7 @@ def check(col, prog, tier, profile, fixture=None):
                 # single call: either the near child hit (Some) and is returned, or the near child was skipped
                 e = first
                 if order[0] == near:
-                    hit = any(((f[0] == "eq" and f[2] == 1) or (f[0] == "ne" and f[2] == 0 and f[1][0] == "discr")) and ("proj", 1, e.res) in list(subterms(f[1])) for f in st.facts)
+                    hit = _opt_state(st, ("proj", 1, e.res)) == "some"
                     okr = ret == e.res or (ret[0] == "agg" and ret[2] == (("proj", 0, e.res), ("proj", 1, e.res)))
                     key = "%s|stop-at-first-hit" % fk(b)
                     if hit and okr:
